@@ -377,6 +377,35 @@ def judge_redirect(rec: Recorder, url1: str, url2: str, proxy: str | None, heade
         pm.clear()
 
 
+def judge_zone_case(rec: Recorder, urls: list[str]) -> None:
+    """Scoped IPv6 literals whose zone ids differ only in letter case name different interfaces (zone ids are opaque and
+    interface names case-sensitive): through ONE manager each request must travel on a connection opened to its own
+    URL's host, whatever spelling the manager saw first."""
+    import urllib3
+
+    case = {"zone_case_urls": urls}
+    with netsim.Net(Srv()) as net, warnings.catch_warnings():
+        warnings.simplefilter("ignore")
+        pm = urllib3.PoolManager()
+        used = []
+        for u in urls:
+            try:
+                pm.request("GET", u, retries=False, redirect=False)
+            except Exception:  # noqa: BLE001
+                rec.count("sequence_url_rejected")
+                pm.clear()
+                return
+            evs = [e for e in net.events if e[1] == "request"]
+            used.append(net.states[evs[-1][2]].dial["host"] if evs else None)
+        pm.clear()
+    rec.mon("zone_case_sequence")
+    for u, dialled in zip(urls, used):
+        want_zone = u.split("%25", 1)[1].split("]", 1)[0]
+        if dialled is None or "%" not in str(dialled) or str(dialled).split("%", 1)[1] != want_zone:
+            rec.fail(case, "dialled-another-hosts-connection", {"url": u, "dialled": dialled, "want_zone": want_zone, "history": urls[: urls.index(u)]}, f"request for {u!r} travelled on a connection opened to {dialled!r}")
+            return
+
+
 def forward_like(proxy: str | None, url: str) -> bool:
     return bool(proxy) and url.lower().startswith("http://")
 
@@ -446,7 +475,12 @@ def run_shard(ctx: Ctx, rec: Recorder) -> None:
                 rec.case(["variants", base])
                 judge_variants(rec, base, variants, None)
                 if scheme == "http":
-                    judge_variants(rec, base, variants[:2], "http://proxy.test:3128")
+                    # forwarded through a proxy the same holds: an explicit default port changes neither target nor Host
+                    judge_variants(rec, base, variants, "http://proxy.test:3128")
+                    if port == "":
+                        # ... and an empty path is sent as "/"
+                        judge_variants(rec, build_url(scheme, "", host, port, "/", "?q=1", ""), [build_url(scheme, "", host, port, "", "?q=1", ""), build_url(scheme, "", host, f":{DEFAULT_PORT[scheme]}", "", "?q=1", "")], "http://proxy.test:3128")
+                        judge_variants(rec, build_url(scheme, "", host, port, "/", "", ""), [build_url(scheme, "", host, port, "", "", "")], "http://proxy.test:3128")
     # (iii-b) several origins through one manager
     seqs = [["http://alpha.test/a", "http://beta.test:8080/b?x=1", "http://alpha.test/c"], ["http://h.test/1", "https://s.test/2", "http://[::1]:81/3"], ["http://beta.test:8080/b", "http://ALPHA.test/a#f"]]
     si = 0
@@ -458,9 +492,13 @@ def run_shard(ctx: Ctx, rec: Recorder) -> None:
                     for container in ("dict", "hd"):
                         rec.case(["mgr-seq", seq, proxy, shared, container])
                         judge_manager_sequence(rec, seq, proxy, shared, container)
+    if ctx.shard == 0:
+        for zs in (["http://[fe80::1%25eth0]:8080/a", "http://[fe80::1%25ETH0]:8080/b"], ["http://[fe80::1%25ETH0]/a", "http://[fe80::1%25eth0]/b", "http://[fe80::1%25Eth0]/c"], ["http://[FE80::1%25eth0]/a", "http://[fe80::1%25eth0]/b"]):
+            rec.case(["zone-case", zs])
+            judge_zone_case(rec, zs)
     # (iii-c) redirects followed by the manager: the follow-up is a request for the new URL
-    firsts = ["http://alpha.test/hop", "http://alpha.test:8080/hop?x=1", "https://alpha.test/hop", "http://[::1]:81/hop", "http://ALPHA.test./hop"]
-    seconds = ["http://beta.test/final", "https://beta.test/final?y=2", "http://beta.test:9090/final", "https://beta.test:8443/final", "http://alpha.test:9090/final", "https://alpha.test/final", "http://[2001:db8::1:0]/final", "https://[::1]:8443/final", "http://BETA.test/final#frag", "http://alpha.test/final"]
+    firsts = ["http://alpha.test/hop", "http://alpha.test:8080/hop?x=1", "https://alpha.test/hop", "http://[::1]:81/hop", "http://ALPHA.test./hop", "http://alpha.test:80/hop", "https://alpha.test:443/hop?x=1"]
+    seconds = ["http://beta.test/final", "https://beta.test/final?y=2", "http://beta.test:9090/final", "https://beta.test:8443/final", "http://alpha.test:9090/final", "https://alpha.test/final", "http://[2001:db8::1:0]/final", "https://[::1]:8443/final", "http://BETA.test/final#frag", "http://alpha.test/final", "http://beta.test:80/final", "http://beta.test"]
     ri = 0
     for u1 in firsts:
         for u2 in seconds:
